@@ -1,6 +1,7 @@
 import FsModel.Driver
 import FsModel.Grid
 import FsModel.MeshGrid
+import FsModel.Adi
 
 /-! Grid calls of `fsmodel`. -/
 namespace Fs.Driver
@@ -150,5 +151,28 @@ def gridIter (g : GridSpec) (which dir : String) : List String :=
   let p : Nat → Bool := if which == "all" then fun _ => true else fun i => g.status.getD i 0 == stTok which
   let l := if dir == "fwd" then iterFwd n p else iterRev n p
   [line ("iter " ++ which ++ " " ++ dir) (joinNats l)]
+
+/-- `adi <s k | a k…> dt elev… [reps]` on a raster grid -/
+def gridAdi (g : GridSpec) (toks : List String) : List String :=
+  match g, toks with
+  | .raster r _, _ :: kk :: rest =>
+    let n := r.rows * r.cols
+    let nk := if kk == "s" then 1 else n
+    let ks := (rest.take nk).map hexF
+    let dt := hexF ((rest.drop nk).headD "0")
+    let ev := ((rest.drop (nk + 1)).take n).map hexF |>.toArray
+    let e : Fs.Adi.Fld F := fun i j => ev.getD (i * r.cols + j) 0.0
+    let (frow, fcol) :=
+      if kk == "s" then
+        (Fs.Adi.factorsScalar S 0.5 (ks.headD 0.0) r.dy, Fs.Adi.factorsScalar S 0.5 (ks.headD 0.0) r.dx)
+      else
+        let ka := ks.toArray
+        let k : Fs.Adi.Fld F := fun i j => ka.getD (i * r.cols + j) 0.0
+        (Fs.Adi.factorsRow S 0.25 r.dy k, Fs.Adi.factorsCol S 0.25 r.dx k)
+    match Fs.Adi.erode S r.rows r.cols frow fcol dt e with
+    | none => ["O adi err runtime_error"]
+    | some ero =>
+      [line "adi" (joinF ((List.range n).map (fun i => ero (i / r.cols) (i % r.cols))))]
+  | _, _ => ["O model-unsupported"]
 
 end Fs.Driver
